@@ -57,7 +57,7 @@ def jobs_from_cases(chk, cases):
         if c["defect"] == "none" and c["pos"] in ("top", "first", "meta") and c["slot"] in ("-", "field"):
             baselines.setdefault(c["fmt"], (c["tool"], c["game"], data))
         # rotating game: the same text under another game of the same tool
-        rot = chk.tier == "thorough" or c["id"] % 9 == 0
+        rot = c["id"] % (3 if chk.tier == "thorough" else 9) == 0
         if rot and c["kind"] != "map":
             games = TOOL_GAMES[c["tool"]]
             for k in range(1):
@@ -260,7 +260,7 @@ def random_mutant(rng, data):
 
 def mutation_jobs(chk, corpus, baselines, runner):
     quick = chk.tier == "quick"
-    ktok, kbyte = (3, 2) if quick else (100, 30)
+    ktok, kbyte = (3, 2) if quick else (40, 15)
     jobs = []
     sources = list(corpus)
     for fmt, (tool, game, data) in sorted(baselines.items()):
@@ -288,16 +288,16 @@ def mutation_jobs(chk, corpus, baselines, runner):
         jobs.append(tc.Job(tool, "compile", game, script, "spec", maps=[("mut_@ID@" + ext, mdata)], gen={"class": "mutation:map-pristine", "seed_file": name}))
         lines = mdata.decode("utf-8").split("\n")
         muts = []
-        for p in sweep_positions(len(lines), 3 if quick else 40):
+        for p in sweep_positions(len(lines), 3 if quick else 20):
             muts.append(("map-line-delete", "\n".join(lines[:p] + lines[p + 1:]).encode()))
             muts.append(("map-line-duplicate", "\n".join(lines[:p + 1] + lines[p:]).encode()))
             muts.append(("map-line-swap-fields", "\n".join(lines[:p] + [" ".join(reversed(lines[p].split(" ", 1)))] + lines[p + 1:]).encode()))
-        muts += token_mutants(mdata.decode("utf-8"), 2 if quick else 40)[:12 if quick else None]
-        muts += byte_mutants(mdata, 1 if quick else 20)
+        muts += token_mutants(mdata.decode("utf-8"), 2 if quick else 20)[:12 if quick else None]
+        muts += byte_mutants(mdata, 1 if quick else 10)
         for op, data in muts:
             jobs.append(tc.Job(tool, "compile", game, script, "spec", maps=[("mut_@ID@" + ext, data)], gen={"class": "mutation:map:" + op, "seed_file": name}))
     # the only seed-dependent part
-    nrand = 300 if quick else 15000
+    nrand = 300 if quick else 6000
     for k in range(nrand):
         s = sources[chk.rng.randrange(len(sources))]
         data = random_mutant(chk.rng, s["data"])
